@@ -321,7 +321,11 @@ var c10NoValue = []string{`nothing`, `a.nothing`, `$lookup({"a":1},"b")`, `$look
 	`true ? nothing : 1`, `false ? 1`, `function(){nothing}()`, `$map(nothing,$string)`, `$reduce(nothing, $append)`, `$spread(nothing)`, `$each(nothing, function($v){$v})`,
 	`$sift(nothing, function($v){true})`, `$merge(nothing)`, `$reverse(nothing)`, `$sort(nothing)`, `$lookup(nothing,"a")`, `$substring(nothing,1)`, `$abs(nothing)`, `$round(nothing)`,
 	`$power(nothing,2)`, `$fromMillis(nothing)`, `$toMillis(nothing)`, `$type(nothing)`, `$length(nothing)`, `$trim(nothing)`, `$split(nothing,",")`, `$join(nothing)`,
-	`$replace(nothing,"a","b")`, `$formatNumber(nothing,"0")`, `$base64encode(nothing)`, `$boolean(nothing)`, `$shuffle(nothing)`, `$single(nothing, function($v){true})`, `$append(nothing,nothing)`}
+	`$replace(nothing,"a","b")`, `$formatNumber(nothing,"0")`, `$base64encode(nothing)`, `$boolean(nothing)`, `$shuffle(nothing)`, `$single(nothing, function($v){true})`, `$append(nothing,nothing)`,
+	// a callback that yields no value
+	`$reduce([1,2], function($a,$b){$b.missing})`, `$reduce([1,2,3], function($a,$b){nothing})`, `$reduce([{"a":1}], function($a,$b){nothing}, 1)`, `$reduce([], function($a,$b){$a})`,
+	`$reduce(nothing, function($a,$b){$a}, nothing)`, `function($x){$x.missing}(a)`, `[1] ~> $map(function($v){nothing}) ~> $max()`, `$sort([]) ~> $max()`, `(nothing ~> $string) ~> $length`,
+	`$lookup({"a":{"b":1}}, "a").c`, `$spread({}).x`, `$each({}, function($v){$v}).x`, `$zip([]).x`, `$match("a", /b/).match`}
 
 func c10NoValueProbe(r *fw.Rec, prog string) {
 	doc := `{"a":{}}`
